@@ -64,6 +64,7 @@ func shapesFor(tier string) []Shape {
 	}
 	for _, outPkg := range []bool{false, true} {
 		out = append(out,
+			Shape{OutPkg: outPkg, Ifaces: []IShape{{Methods: []MShape{{NP: 2, NilP: true, Rets: []RetKind{RPlain}}, {NP: 2, NilP: true, Variadic: true, VarElem: "named"}}}}},
 			Shape{OutPkg: outPkg, Ifaces: []IShape{{Methods: nil}}},
 			Shape{OutPkg: outPkg, Ifaces: []IShape{{Methods: nil, NTP: 1}}},
 			Shape{OutPkg: outPkg, Ifaces: []IShape{{Methods: []MShape{{NP: 0}}}}},
